@@ -12,11 +12,24 @@ func init() {
 func vBuildCommit(id uint64, c Chunk, K int, ops *[4]vOp) Commit {
 	b := NewBuffer(16)
 	b.Reset("col")
+	big := vndParam("big")
 	for i := 0; i < K; i++ {
 		var o vOp
 		o.kind = vkW2
 		if vndChoice("ckind", 2) == 1 {
 			o.kind = vkBytes
+		}
+		if big > 0 && i == 0 {
+			// one long payload (concrete bytes): encodings longer than any small-read fast path
+			o.kind, o.op = vkBytes, Put
+			o.off = uint32(c)<<chunkShift | 5
+			o.str = make([]byte, big)
+			for j := range o.str {
+				o.str[j] = byte(j)
+			}
+			b.PutBytes(o.op, o.off, o.str)
+			ops[i] = o
+			continue
 		}
 		o.op = Put
 		o.off = uint32(c)<<chunkShift | uint32(vndU8("coff"))
@@ -37,6 +50,7 @@ func vBuildCommit(id uint64, c Chunk, K int, ops *[4]vOp) Commit {
 // byte offset; Range over the prefix delivers a prefix of the commits, each whole and in order, or
 // returns an error - it never panics and never hands out part of a commit.
 func VerifC13LogTruncation() {
+	VS2Through = vndSymbolic() && vndParam("through") == 1
 	N, K := vndParam("N"), vndParam("K")
 	file := &VBuf{}
 	log := Open(file)
